@@ -3,7 +3,7 @@
    the library writes during the check decodes in the model, re-encodes to the same bytes and carries the values the
    API returns).  Statements only. *)
 From Coq Require Import List NArith Bool.
-From SoftHSM Require Import Defs Codec CodecFacts.
+From SoftHSM Require Import Gen_Const Gen_Pure Defs Core AccessFacts StepFacts Invariants SessionSpec PinFacts HandleFacts TokenFacts PersistFacts Codec CodecFacts.
 Import ListNotations.
 Local Open Scope N_scope.
 
@@ -31,3 +31,44 @@ Theorem C05_golden_file_example :
   end = (35, 32%nat, true, true, true).
 Proof. vm_compute. reflexivity. Qed.
 Print Assumptions C05_golden_file_example.
+
+(* ---- the PKCS#11 layer (core model, tied by K-api): what changes token objects, and what does not ------------------ *)
+(* a restart keeps every token's objects with identical attribute values *)
+Theorem C05_restart_keeps_objects : forall (s : state) (b : bool) (k : N), tok_objs (restart s b) k = tok_objs s k.
+Proof. exact restart_keeps_objs. Qed.
+Print Assumptions C05_restart_keeps_objects.
+
+(* only a SUCCESSFUL create / copy / destroy / set-attribute / init-token changes any token object: logins, logouts,
+   PIN changes, closing sessions, searches, reads, failed calls and restarts leave them byte for byte as they were *)
+Theorem C05_objects_change_only_by : forall (s : state) (o : op) (k : N),
+  tok_objs (fst (step s o)) k = tok_objs s k \/ obj_event s o.
+Proof. exact objs_change_only_by. Qed.
+Print Assumptions C05_objects_change_only_by.
+
+Theorem C05_persist_trace : forall (ops : list op) (s : state) (k : N),
+  no_obj_event s ops -> tok_objs (exec s ops) k = tok_objs s k.
+Proof. exact persist_trace. Qed.
+Print Assumptions C05_persist_trace.
+
+(* destroyed objects never reappear: an object id that is absent and already issued stays absent for ever *)
+Theorem C05_absent_never_reappears : forall (ops : list op) (s : state) (i : N),
+  i < st_next_oid s -> ~ In i (oids s) -> ~ In i (oids (exec s ops)).
+Proof. exact absent_never_reappears. Qed.
+Print Assumptions C05_absent_never_reappears.
+
+Theorem C05_destroyed_object_never_reappears : forall (ops0 : list op) (h oh : N) e l ob,
+  let s := exec init_state ops0 in
+  get_object s oh = Some (e, l, ob) -> snd (step s (ODestroy h oh)) = RRv CKR_OK ->
+  forall ops, ~ In (loc_oid l) (oids (exec (fst (step s (ODestroy h oh))) ops)).
+Proof. exact destroyed_object_never_reappears. Qed.
+Print Assumptions C05_destroyed_object_never_reappears.
+
+(* session objects never outlive their session *)
+Theorem C05_session_objects_die : forall s : state,
+  (forall h x, inv_tok s -> st_init s = true -> get_session s h = Some x ->
+     forall p, In p (st_sobjs (fst (step s (OClose h)))) -> so_sess (snd p) <> h) /\
+  (forall k, st_init s = true -> amem k (st_tokens s) = true ->
+     forall p, In p (st_sobjs (fst (step s (OCloseAll (TTok k))))) -> so_tok (snd p) <> k) /\
+  (forall b, st_sobjs (restart s b) = []).
+Proof. exact session_objects_die. Qed.
+Print Assumptions C05_session_objects_die.
